@@ -669,8 +669,8 @@ fn main() {
     let a = args();
     quiet_panics();
     let mut gen = SplitMix64::new(a.seed ^ 0xC14);
-    let (ncfg, kmax, m) = if a.thorough { (60, 36, 30) } else { (16, 14, 10) };
-    let (ngen, ntemper) = if a.thorough { (24, 30) } else { (8, 10) };
+    let (ncfg, kmax, m) = if a.thorough { (100, 40, 30) } else { (32, 20, 12) };
+    let (ngen, ntemper) = if a.thorough { (40, 40) } else { (12, 16) };
 
     keys_mode();
 
